@@ -2,4 +2,5 @@ import TinyFlux.Audit.Tool
 import TinyFlux.Props.C13
 import TinyFlux.Props.C13EndToEnd
 import TinyFlux.Props.C13State
+import TinyFlux.Props.C13Witness
 #audit TinyFlux.Props.C13
